@@ -39,6 +39,8 @@ type Solver struct {
 	log       io.Writer
 	TimeoutMs int
 	depth     int
+	UseNRA    bool // real arithmetic present: use the nlsat tactic (z3's incremental core is weak on NRA)
+	NRAFallbacks int
 }
 
 func New(kind string, timeoutMs int) (*Solver, error) {
@@ -246,9 +248,23 @@ func (s *Solver) AssertRef(t *sym.Term) {
 }
 
 func (s *Solver) Check() Result {
+	if s.UseNRA && s.Kind != "cvc5" {
+		errs := s.Errors
+		r := s.checkWith("(check-sat-using (then simplify propagate-values solve-eqs purify-arith nlsat))")
+		if r != Unknown && s.Errors == errs {
+			return r
+		}
+		// tactic not applicable (mixed theories) or gave up: fall back to the default solver
+		s.Errors = errs
+		s.NRAFallbacks++
+	}
+	return s.checkWith("(check-sat)")
+}
+
+func (s *Solver) checkWith(cmd string) Result {
 	start := time.Now()
 	s.Queries++
-	s.send("(check-sat)")
+	s.send(cmd)
 	r := Unknown
 	for {
 		line, err := s.readSexp()
@@ -272,6 +288,11 @@ func (s *Solver) Check() Result {
 		if strings.HasPrefix(line, "(error") {
 			s.Errors++
 			s.LastError = line
+			if strings.HasPrefix(cmd, "(check-sat-using") {
+				// a failing tactic prints only the error
+				r = Unknown
+				break
+			}
 			fmt.Fprintln(os.Stderr, "symgo: solver error:", line)
 			// keep reading: the check-sat answer follows
 			continue
